@@ -1,4 +1,5 @@
 use num_bigint::{BigInt, Sign};
+use num_traits::ToPrimitive;
 
 use super::errors::InterpreterError;
 
@@ -106,35 +107,7 @@ impl ScriptStack for Vec<Vec<u8>> {
 
     fn pop_number(&mut self) -> Result<i32, InterpreterError> {
         let bytes = self.pop_bytes()?;
-        // Numbers cannot be popped having more than 4 bytes, but may overflow on the stack to 5 bytes
-        // after certain operations and may be used as byte vectors.
-        if bytes.len() > 4 {
-            // let msg = format!("Cannot pop num, len too long {}", top.len());
-            return Err(InterpreterError::NumberOutOfRange);
-        }
-
-        let mut val = match bytes.len() {
-            0 => return Ok(0),
-            1 => (bytes[0] & 127) as i64,
-            2 => (((bytes[1] & 127) as i64) << 8) + (bytes[0] as i64),
-            3 => (((bytes[2] & 127) as i64) << 16) + ((bytes[1] as i64) << 8) + (bytes[0] as i64),
-            4 => (((bytes[3] & 127) as i64) << 24) + ((bytes[2] as i64) << 16) + ((bytes[1] as i64) << 8) + (bytes[0] as i64),
-            _ => {
-                for byte in &bytes {
-                    if byte != &0 {
-                        return Err(InterpreterError::NumberOutOfRange);
-                    }
-                }
-                if bytes[bytes.len() - 1] & 127 != 0 {
-                    return Err(InterpreterError::NumberOutOfRange);
-                }
-                ((bytes[3] as i64) << 24) + ((bytes[2] as i64) << 16) + ((bytes[1] as i64) << 8) + (bytes[0] as i64)
-            }
-        };
-        if bytes[bytes.len() - 1] & 128 != 0 {
-            val = 0 - val;
-        }
-
-        Ok(val as i32)
+        // Script numbers have no length limit in Bitcoin SV (they may be zero padded), only the value has to fit.
+        to_bigint(&bytes)?.to_i32().ok_or(InterpreterError::NumberOutOfRange)
     }
 }
